@@ -179,8 +179,9 @@ Print Assumptions C02_history_example.
        op_roundtrip_all, which holds for the operations inside C05's domain (op_ok: the encoding returns and the
        object is one its constructor can have built).  The C02 lemmas needed the two facts for ALL operations; they
        are re-proved in proofs/SerialHugrOnP.v for "the operations occurring in h" (a generalisation in a new file,
-       not a subset type; the statements above are untouched).  Premise on the nodes: ops_ok_b = C05's op_ok plus
-       tag_ok (a Tag names one of its variants; otherwise ops._num_dataflow_ports raises IndexError).
+       not a subset type; the statements above are untouched).  Premise on the nodes: ops_ok_b = C05's op_ok.  (A Tag
+       whose tag names no variant has no signature; ops._num_dataflow_ports answers None for it since fix f60e9c0, as
+       the model does: it has no order port, no premise about it is needed.)
        Depth 0 = no function-valued constants (payload type Empty_set); any depth = the tower of
        model/ComposeDepth.v, where the payload of a function-valued constant one level up is a HUGR of
        model/SerialHugr.v one level down and C05's payload hypothesis h_rt is this very theorem one level down.
@@ -269,6 +270,13 @@ Example C02_concrete_ops_example :
     h_links h' = map (rename_link (rank ex0)) (h_links ex0) /\
     nth_error (h_links h') 9 = Some ((6, AOrder), (10, AOrder)).
 Proof. exact (conj ex0_premises ex0_document). Qed.
+(* a Tag whose tag names no variant (no signature: ops._num_dataflow_ports answers None since fix f60e9c0, as the model
+   does) is covered: it has no order port, a numbered link on it round-trips *)
+Example C02_tag_without_variant_example :
+  guard0 ex_tag = true /\ ops_ok_b N e0_ok ex_tag = true /\
+  tag_ok E0 (OTag 5%N (TSum [[tbool]])) = false /\ c_ndp E0 (OTag 5%N (TSum [[tbool]])) DIn = None /\
+  exists s h', to_s0 ex_tag = Some s /\ from_s0 s = Some h' /\ to_s0 h' = Some s /\ h_links h' = h_links ex_tag.
+Proof. exact ex_tag_roundtrip. Qed.
 (* non-vacuity, depth 1: a DFG loading a function-valued constant whose body is a 5-node HUGR with a constant *)
 Example C02_function_constant_example :
   (okT N is0 1 body1 = true /\ guardT N is0 1 ex1 = true /\ ops_ok_b N (okT N is0 1) ex1 = true) /\
@@ -346,7 +354,7 @@ Proof. exact ex2_end_to_end. Qed.
 
 (* ---- histories, composed.  (a) over C05's concrete operations at any nesting depth n: Hugr(o), then any list of
    public mutator calls; premises on the calls only (hist_ok, hist_on_ports as above; every operation handed to Hugr /
-   add_node / add_const / insert_hugr inside C05's domain: cop_ok_b = op_ok and tag_ok). ---- *)
+   add_node / add_const / insert_hugr inside C05's domain: cop_ok_b = op_ok). ---- *)
 From HV Require proofs.ComposeHistP proofs.ComposeHistOpsP proofs.ComposeReplayP proofs.ComposeBuilderHistP.
 Import proofs.ComposeHistP proofs.ComposeHistOpsP.
 Theorem C02_history_roundtrip_concrete_ops :
@@ -432,6 +440,7 @@ Print Assumptions C02_roundtrip_concrete_ops.
 Print Assumptions C02_concrete_document_nodes.
 Print Assumptions C02_roundtrip_concrete_ops_any_depth.
 Print Assumptions C02_concrete_ops_example.
+Print Assumptions C02_tag_without_variant_example.
 Print Assumptions C02_function_constant_example.
 Print Assumptions C02_builder_index_ordered.
 Print Assumptions C02_builder_guard.
